@@ -90,11 +90,18 @@ class DnsRequest {
     struct Request {
         Callback cb;
         size_t response_count = 0;
+        uint64_t seq = 0;   //!< 请求序号，req_id会被复用，序号不会
+    };
+
+    //! 超时监控的条目：req_id 加上该请求的序号，用于识别 req_id 被复用后遗留的旧条目
+    struct TimeoutToken {
+        ReqId req_id;
+        uint64_t seq;
     };
 
     void init();
     void onUdpRecv(const void *data_ptr, size_t data_size, const SockAddr &from);
-    void onRequestTimeout(ReqId req_id);
+    void onRequestTimeout(const TimeoutToken &token);
 
     void addRequest(ReqId req_id, const Callback &cb);
     Request* findRequest(ReqId req_id);
@@ -102,10 +109,11 @@ class DnsRequest {
 
   private:
     UdpSocket udp_;
-    eventx::TimeoutMonitor<ReqId> timeout_monitor_;
+    eventx::TimeoutMonitor<TimeoutToken> timeout_monitor_;
 
     IPAddressVec dns_ip_vec_;
     ReqId req_id_alloc_ = 0;
+    uint64_t seq_alloc_ = 0;
 
     std::map<ReqId, Request> requests_;
 };
